@@ -107,6 +107,10 @@ type ovsdbClient struct {
 
 	trafficSeen chan struct{}
 
+	// leaderWatchCache is the _Server cache the leadership watch is
+	// registered with; protected by the monitorsMutex of that database
+	leaderWatchCache *cache.TableCache
+
 	logger *logr.Logger
 }
 
@@ -205,10 +209,15 @@ func newOVSDBClient(clientDBModel model.ClientDBModel, opts ...Option) (*ovsdbCl
 // If no WithEndpoint option is supplied, the default of unix:/var/run/openvswitch/ovsdb.sock is used
 func (o *ovsdbClient) Connect(ctx context.Context) error {
 	if err := o.connect(ctx, false); err != nil {
-		if err == ErrAlreadyConnected {
+		if err != ErrAlreadyConnected {
+			return err
+		}
+		if !o.options.leaderOnly {
 			return nil
 		}
-		return err
+		// an earlier Connect may have failed while setting up the
+		// leadership watch and the reconnect logic may have re-established
+		// the connection since: make sure the watch exists
 	}
 	if o.options.leaderOnly {
 		if err := o.watchForLeaderChange(); err != nil {
@@ -1145,8 +1154,37 @@ func (o *ovsdbClient) Echo(ctx context.Context) error {
 // watchForLeaderChange will trigger a reconnect if the connected endpoint
 // ever loses leadership
 func (o *ovsdbClient) watchForLeaderChange() error {
+	db := o.databases[serverDB]
+	o.rpcMutex.RLock()
+	defer o.rpcMutex.RUnlock()
+	db.monitorsMutex.Lock()
+	defer db.monitorsMutex.Unlock()
+
+	db.cacheMutex.RLock()
+	watched := o.leaderWatchCache != nil && o.leaderWatchCache == db.cache
+	o.leaderWatchCache = db.cache
+	db.cacheMutex.RUnlock()
+	if !watched {
+		// once per cache: the handler and the goroutine that consumes what
+		// it reports are set up together, whether or not the monitor
+		// request below succeeds
+		o.startLeaderWatch(db.cache)
+	}
+	if len(db.monitors) > 0 {
+		// the monitor exists already (it is re-established on reconnect)
+		return nil
+	}
+
+	m := newMonitor()
+	// NOTE: _Server does not support monitor_cond_since
+	m.Method = ovsdb.ConditionalMonitorRPC
+	m.Tables = []TableMonitor{{Table: "Database"}}
+	return o.monitor(context.Background(), newMonitorCookie(serverDB), false, m)
+}
+
+func (o *ovsdbClient) startLeaderWatch(tc *cache.TableCache) {
 	updates := make(chan model.Model)
-	o.databases[serverDB].cache.AddEventHandler(&cache.EventHandlerFuncs{
+	tc.AddEventHandler(&cache.EventHandlerFuncs{
 		// after a reconnect the state of the endpoint arrives as the
 		// initial contents of the re-established monitor, i.e. as an add:
 		// leadership may have been lost between the leader check made
@@ -1162,20 +1200,6 @@ func (o *ovsdbClient) watchForLeaderChange() error {
 			}
 		},
 	})
-
-	m := newMonitor()
-	// NOTE: _Server does not support monitor_cond_since
-	m.Method = ovsdb.ConditionalMonitorRPC
-	m.Tables = []TableMonitor{{Table: "Database"}}
-	db := o.databases[serverDB]
-	o.rpcMutex.RLock()
-	defer o.rpcMutex.RUnlock()
-	db.monitorsMutex.Lock()
-	defer db.monitorsMutex.Unlock()
-	err := o.monitor(context.Background(), newMonitorCookie(serverDB), false, m)
-	if err != nil {
-		return err
-	}
 
 	go func() {
 		for m := range updates {
@@ -1222,7 +1246,6 @@ func (o *ovsdbClient) watchForLeaderChange() error {
 			o.rpcMutex.Unlock()
 		}
 	}()
-	return nil
 }
 
 func (o *ovsdbClient) handleClientErrors(stopCh <-chan struct{}) {
